@@ -32,8 +32,11 @@ Init ==
   \* the mapper never holds a range with a zero bound (mapping.rs: line mapping only if both > 0)
   /\ Reader = "mapper" => ((end = 0 /\ start = 0 /\ ostart = 0 /\ oend = NoEnd) \/ (end > 0 /\ start > 0))
 
-SatAdd(a, b) == IF a + b > UMax THEN UMax ELSE a + b
-SatSub(a, b) == IF a - b < 0 THEN 0 ELSE a - b
+\* the saturating operators are those of LineArith.tla, about which LineArithProofs.tla proves, for every width,
+\* what this model checks at small width
+LA == INSTANCE LineArith
+SatAdd(a, b) == LA!SatAdd(a, b, UMax)
+SatSub(a, b) == LA!SatSub(a, b)
 
 Filter ==
   /\ pc = "filter"
